@@ -86,6 +86,7 @@ impl Stats
     pub fn end_run(&mut self)
     {
         self.inc("runs");
+        for d in super::gen::take_case_dimensions() { self.inc(&format!("case.{}", d)); }
         if self.want_digests
         {
             let n = self.counters.get("runs").cloned().unwrap_or(0);
